@@ -72,8 +72,26 @@ func (r *ReAST) Text() string {
 		return grp(r.A.Text()) + "+"
 	case "opt":
 		return grp(r.A.Text()) + "?"
+	case "bol":
+		return "^"
+	case "eol":
+		return "$"
 	}
 	panic("bad regex node " + r.T)
+}
+
+// genReA: genRe, one time in four anchored at the beginning, the end or both (^ and $ without the m flag).
+func genReA(r *rand.Rand, depth int, alphabet string) *ReAST {
+	re := genRe(r, depth, alphabet)
+	switch r.Intn(8) {
+	case 0:
+		return &ReAST{T: "cat", A: &ReAST{T: "bol"}, B: re}
+	case 1:
+		return &ReAST{T: "cat", A: re, B: &ReAST{T: "eol"}}
+	case 2:
+		return &ReAST{T: "cat", A: &ReAST{T: "bol"}, B: &ReAST{T: "cat", A: re, B: &ReAST{T: "eol"}}}
+	}
+	return re
 }
 
 // genRe draws a random regex over a small ASCII alphabet.
